@@ -215,6 +215,7 @@ func runCheck(def *CheckDef, tier string, seed int, noKnown, noReplay bool, only
 	var qs struct{ q, sat, unsat, unknown, errs int }
 	var solverT time.Duration
 	distinct := 0
+	distinctNT := 0
 	crossQ, crossD := 0, 0
 	passingValidated := 0
 	passingBudget := 2
@@ -239,6 +240,7 @@ func runCheck(def *CheckDef, tier string, seed int, noKnown, noReplay bool, only
 			}
 		}
 		distinct += r.Distinct
+		distinctNT += r.DistinctNontrivial
 		transitions += int(r.Decisions)
 		verdictQ += r.Verdicts
 		qs.q += r.Queries.Queries
@@ -376,8 +378,9 @@ func runCheck(def *CheckDef, tier string, seed int, noKnown, noReplay bool, only
 		"transitions":                     transitions,
 		"traces_validated_against_impl":   validated,
 		"evaluations":                     states,
-		"distinct_nontrivial":             distinct,
-		"rule":                            "one evaluation = one completed symbolic path of a harness (a path covers every value of its symbolic variables); distinct = distinct decision vectors; non-trivial = not discarded by an assumption",
+		"distinct_nontrivial":             distinctNT,
+		"distinct_paths":                  distinct,
+		"rule":                            "one evaluation = one completed symbolic path of a harness (a path covers every value of its symbolic variables, not one input); distinct = distinct decision vectors (counted in a set); non-trivial = not discarded by an assumption AND the solver decided at least one branch, concretisation or verdict on it (paths made of harness choice points only are trivial)",
 		"verdict_queries_nonconstant":     verdictQ,
 		"queries":                         map[string]int{"total": qs.q, "sat": qs.sat, "unsat": qs.unsat, "unknown": qs.unknown, "error": qs.errs},
 		"solver_time_s":                   solverT.Seconds(),
